@@ -592,7 +592,7 @@ func TestVerifC15(t *testing.T) {
 	if vk.Shard() == 0 {
 		tt.directed()
 	}
-	n := vk.N(100, 5000)
+	n := vk.N(300, 5000)
 	for i := 0; i < n; i++ {
 		tt.r = vk.RandFor(15, i)
 		tt.history(i)
